@@ -34,7 +34,9 @@ def counts(out):
 def verify(d):
     meta = json.load(open(os.path.join(d, "meta.json")))
     demo_cmd = meta.get("demo_cmd", "cargo test --offline --test demo_seed")
-    demo_cmd = re.sub(r"^.*?(cargo test)", r"\1", demo_cmd.split("\n")[0]).strip().strip("`")
+    first = demo_cmd.split("\n")[0]
+    envp = re.search(r"(RUSTFLAGS=(\"[^\"]*\"|'[^']*'|\S+))\s+cargo test", first)
+    demo_cmd = re.sub(r"^.*?(cargo test)", r"\1", first).strip().strip("`")
     toks = []
     for t in demo_cmd.split():
         if t.startswith("(") or t.startswith("#") or t.startswith(";") or t in ("with", "and", "-", "--", "#"):
@@ -43,6 +45,8 @@ def verify(d):
     demo_cmd = " ".join(toks)
     if "--offline" not in demo_cmd:
         demo_cmd = demo_cmd.replace("cargo test", "cargo test --offline")
+    if envp:
+        demo_cmd = envp.group(1) + " " + demo_cmd        # e.g. the cfg(decaf377_verif) hook some C14 demonstrations need
     res = {"seed": d, "demo_cmd": demo_cmd}
     ensure_wt()
     shutil.copy(os.path.join(d, "demo.rs"), os.path.join(WT, "tests", "demo_seed.rs"))
